@@ -95,7 +95,7 @@ class TypedNode(Node):
     def parent(self) -> TypedNode | None:
         """Return parent node or None for toplevel nodes."""
         p = self._parent
-        return p if p._parent else None
+        return p if p._parent is not None else None
 
     @property
     def children(self) -> list[TypedNode]:
